@@ -31,7 +31,7 @@ CLASSES = [
     ClassDecl("RunExperiment", file=F, fields={"_did_retrieve_version": "bool", "_most_relevant_version": "Opt[Version]"}),
     ClassDecl("RunArguments", file="utils/run_arguments.py", fields={"_args": "PyValue"}),
     ClassDecl("RunOptions", file="utils/run_options.py", fields={"_options": "PyValue"}),
-    ClassDecl("CompletedProcess", fields={"returncode": "int", "stdout": "str"}, ghost={"g_cwd": "Opt[Val[Path]]"}),
+    ClassDecl("CompletedProcess", fields={"returncode": "int", "stdout": "str"}, ghost={"g_cwd": "Opt[Val[Path]]", "g_argv": "List[str]"}),
     ClassDecl("RuntimeError", exception=True, bases=["BaseException"]),
 ]
 
@@ -74,7 +74,7 @@ CONTRACTS = [
     # ---------------------------------------------------------------- assumed (A-GIT / A-SQL)
     Contract("ext::subprocess.run", params={"args": "List[str]", "cwd": "Opt[Val[Path]]"}, defaults={"cwd": "None"}, returns="CompletedProcess", varargs=True, fresh_result=True,
              ensures=[
-                 C("runs_in_the_given_directory", "result.g_cwd == cwd"),
+                 C("runs_in_the_given_directory", "result.g_cwd == cwd and result.g_argv == args"),
                  C("A-GIT merge-base", "implies(seq_len(args) == 5 and args[0] == 'git' and args[1] == 'merge-base' and args[2] == '--is-ancestor',"
                                        " (result.returncode == 0) == Anc(args[3], args[4]))"),
                  C("A-GIT rev-list", "implies(seq_len(args) == 5 and args[0] == 'git' and args[1] == 'rev-list' and args[2] == '--count' and result.returncode == 0,"
@@ -92,8 +92,8 @@ CONTRACTS = [
 
     # ---------------------------------------------------------------- utils/git.py (argv contracts)
     Contract("utils/git.py::Git.is_ancestor", params={"commit_hash": "str", "candidate_ancestor_hash": "str"}, returns="bool",
-             props=["C05", "C17"], locals={},
-             ensures=[C("asks_git_the_right_way_round", "result == Anc(candidate_ancestor_hash, commit_hash)", "C05")],
+             props=["C05", "C17", "C02"], locals={},
+             ensures=[C("asks_git_the_right_way_round", "result == Anc(candidate_ancestor_hash, commit_hash)", "C05", "C02")],
              ghost=[Ghost("assert result.g_cwd is not None and some(result.g_cwd) == self._project_root, 'git_runs_in_the_project_root_not_in_the_invocation_directory | props=C17,C05'", after="result = subprocess.run(...")]),
     Contract("utils/git.py::Git.get_distance", params={"start_hash": "str", "ancestor_hash": "str"}, returns="int", props=["C05", "C17"],
              ensures=[C("counts_commits_from_start_not_reachable_from_ancestor", "result == Dist(start_hash, ancestor_hash)", "C05")],
@@ -102,6 +102,17 @@ CONTRACTS = [
     Contract("utils/git.py::Git.rev_parse", params={"commit_symbol": "str"}, returns="Opt[str]", props=["C17", "C05"],
              ensures=[C("a_hash_or_nothing", "True")],
              ghost=[Ghost("assert result.g_cwd is not None and some(result.g_cwd) == self._project_root, 'git_runs_in_the_project_root_not_in_the_invocation_directory | props=C17,C05'", after="result = subprocess.run(...")]),
+    Contract("utils/git.py::Git.current_commit", returns="Opt[Commit]", props=["C06", "C17", "C05"], fresh_result=True,
+             modifies=["$alloc"],
+             ghost=[Ghost("assert curr_commit.g_cwd is not None and some(curr_commit.g_cwd) == self._project_root, 'git_runs_in_the_project_root_not_in_the_invocation_directory | props=C17,C05'\n"
+                          "assert seq_len(curr_commit.g_argv) == 3 and select(curr_commit.g_argv, 0) == 'git' and select(curr_commit.g_argv, 1) == 'rev-parse'"
+                          " and select(curr_commit.g_argv, 2) == 'HEAD', 'the_recorded_commit_is_HEAD | props=C06'",
+                          after="curr_commit = subprocess.run(..."),
+                    Ghost("assert is_clean.g_cwd is not None and some(is_clean.g_cwd) == self._project_root, 'git_runs_in_the_project_root_not_in_the_invocation_directory | props=C17,C05'\n"
+                          "assert seq_len(is_clean.g_argv) == 4 and select(is_clean.g_argv, 0) == 'git' and select(is_clean.g_argv, 1) == 'diff-index'"
+                          " and select(is_clean.g_argv, 2) == '--quiet' and select(is_clean.g_argv, 3) == 'HEAD',"
+                          " 'the_dirty_flag_compares_work_tree_and_index_with_HEAD | props=C06'",
+                          after="is_clean = subprocess.run(...")]),
     Contract("utils/git.py::Git.is_used", returns="bool", props=["C17", "C05"],
              ghost=[Ghost("assert result.g_cwd is not None and some(result.g_cwd) == self._project_root, 'git_runs_in_the_project_root_not_in_the_invocation_directory | props=C17,C05'", after="result = subprocess.run(...")]),
 
